@@ -51,6 +51,7 @@ CFG = dict(
     ],
     min_counts={"any": {
         "body_or_skip_over_same_name_descendant": 200,
+        "callback_ignored_depth_limit_failure": 100,
         "body_or_skip_over_prefix_extending_descendant": 200,
         "skip_then_sibling_reported": 500,
         "body_then_sibling_reported": 500,
